@@ -155,4 +155,6 @@ def origin_calls(fn, operand, defs=None, _seen=None):
                 p2 = op_place(x['a'])
                 if p2 is not None and not p2['p']:
                     st.append(p2['l'])
+            elif x['k'] == 'ref' and all(e == '*' for e in x['place']['p']):
+                st.append(x['place']['l'])
     return out
